@@ -364,10 +364,10 @@ func runC17(env *core.Env) {
 	stdinCov := c17StdinFaults(env, base, target)
 	validated := conf.run(env)
 	env.Finish("model_checking", map[string]interface{}{
-		"stdin_fault_phase": stdinCov,
+		"stdin_fault_phase":    stdinCov,
 		"plan_neighbour_phase": planBodies,
-		"clock_cases":       clockCases,
-		"states":            len(texts), "transitions": evals, "traces_validated_against_impl": validated, "samples": samples.list,
+		"clock_cases":          clockCases,
+		"states":               len(texts), "transitions": evals, "traces_validated_against_impl": validated, "samples": samples.list,
 		"evaluations": evals, "distinct_nontrivial": classes.len(), "exhaustive": env.TimeLeft(),
 		"rule":  fmt.Sprintf("all strings of length 1-%d over a %d-symbol alphabet (one symbol per transformation: quotes, backslash, control chars, NUL, HTML chars, NEL/NBSP/LS/PS (trimmed by TrimSpace), BOM, combining mark, multi-byte, astral, U+FFFD/U+FFFF) plus 20 long texts (64 KiB boundaries, 128 KiB, 300 KB; plain, 3-byte runes, alternating space / newline) x {title, body} x {new task, new epic, set, plan epic, plan task} x {JSON stdin, flags, --body-stdin}; each read back by show --json directly and after compact; distinct = (field, path, mode, accepted?)", map[bool]int{false: 2, true: 3}[env.Thorough()], len(c17Alphabet)),
 		"texts": len(texts), "cases": len(cases), "accepted": accepted, "rejected": rejected, "not_expressible": skipped, "outcome_classes": classes.snapshot(),
